@@ -34,8 +34,23 @@ func runC27(c *core.Ctx) {
 				c.Fld(opened): cpState + ".mu", c.Fld(refc): cpState + ".mu", c.Fld(notDropped): cpState + ".mu",
 			},
 		}
-		res := core.RunLockset(p, spec)
+		full := core.RunLockset(p, spec)
+		// an unlocked access to a state that is still under construction (a fresh local of a constructor
+		// that has not been handed out yet, or the parameter of a helper that only constructors call on
+		// such a local: see c27Constr) is no access to shared memory
+		rest, constr := c27ConstructionAccesses(c27NewConstr(p, "kvdb/cachedproducer"), full)
+		view := *full
+		view.Accesses = rest
+		res := &view
 		reportLockset(c, res, nil, nil)
+		seenConstr := map[string]bool{}
+		for _, a := range constr {
+			key := "construction|" + short(a.F.Name) + "|" + short(a.Field)
+			if !seenConstr[key] {
+				seenConstr[key] = true
+				c.Pass(key, "T1 LockSet (object under construction)", "unlocked "+a.How+" of "+short(a.Field)+" at "+p.Pos(a.Pos)+": the state it belongs to has not been handed out yet, no other goroutine can reach it")
+			}
+		}
 		// not vacuous: each of the three maps is seen being written somewhere (how the accesses are
 		// spread over functions and closures is a matter of layout, not of the property)
 		written := map[string]bool{}
